@@ -30,6 +30,7 @@ def main():
     ap.add_argument("--note", default="")
     ap.add_argument("--count", type=int, default=1, help="number of occurrences that must match")
     ap.add_argument("--no-record", action="store_true")
+    ap.add_argument("--keep-as", default=None, help="copy up to 3 of the replays found into regress/<prop>/<name>-k.json")
     a = ap.parse_args()
     scratch = tempfile.mkdtemp(prefix="vv-mut-", dir="/dev/shm")
     ev = os.path.join(VERIF, "evidence", a.prop + ".json")
@@ -85,7 +86,13 @@ def main():
             open(ev, "w").write(ev_backup)
         d = os.path.join(VERIF, "replays", a.prop)
         if os.path.isdir(d):
-            for f in set(os.listdir(d)) - before:
+            new = sorted(set(os.listdir(d)) - before, key=lambda f: os.path.getsize(os.path.join(d, f)))
+            if a.keep_as:
+                rd = os.path.join(VERIF, "regress", a.prop)
+                os.makedirs(rd, exist_ok=True)
+                for k, f in enumerate(new[:3]):
+                    shutil.copy(os.path.join(d, f), os.path.join(rd, "%s-%d.json" % (a.keep_as, k)))
+            for f in new:
                 os.unlink(os.path.join(d, f))
 
 
